@@ -152,18 +152,60 @@ def check_tags(ctx):
 
 
 def check_time_expressions(ctx):
-  """FIN-timeexpr: begin / end = h*3600 + m*60 + s + ms/1000 from the begin_* / end_* groups."""
+  """FIN-timeexpr: begin / end = h*3600 + m*60 + s + ms/1000 from the begin_* / end_* groups.  The argument of set_begin /
+  set_end is interpreted (rules/minieval.py; helpers followed) with `m` bound to the match of the reader's own timing pattern on
+  sample lines whose fields all differ (leading zeros in the millisecond field included)."""
+  from fractions import Fraction as F
+  from ..consteval import NotConst, Raised
+  from ..rules.minieval import MiniEval
+  from ..rules import regexrules
   ix = ctx.ix
   f = ix.func("ttconv.srt.reader:to_model")
-  for sink, pfx in (("set_begin", "begin"), ("set_end", "end")):
+  pat = regexrules.regex_bindings(ix, f.module).get("_TIMECODE_RE")
+  if pat is None:
+    raise AnalysisError("srt reader: _TIMECODE_RE is not a constant pattern")
+  rx = re.compile(pat[0])
+  samples = [("01:02:03,004 --> 05:06:07,080", F(3723004, 1000), F(18367080, 1000)), ("00:00:00,040 --> 100:59:59,999", F(40, 1000), F(363599999, 1000)),
+             ("10:00:01,500 --> 10:00:01,007", F(36001500, 1000), F(36001007, 1000))]
+  for sink, idx in (("set_begin", 1), ("set_end", 2)):
     calls = [c for c in own_nodes(f.node) if isinstance(c, ast.Call) and isinstance(c.func, ast.Attribute) and c.func.attr == sink]
     if len(calls) != 1:
       raise AnalysisError(f"srt reader: expected one {sink} call")
-    rows = shape.eval_time_expr(ix, f, calls[0].args[0], {"h": f"{pfx}_h", "m": f"{pfx}_m", "s": f"{pfx}_s", "ms": f"{pfx}_ms"})
-    wrong = [(s, v, w) for s, v, w in rows if v != w]
+    names = {x.id for x in ast.walk(calls[0].args[0]) if isinstance(x, ast.Name)}
+    mvar = next((st.targets[0].id for st in own_nodes(f.node) if isinstance(st, ast.Assign) and isinstance(st.targets[0], ast.Name) and "_TIMECODE_RE" in unparse(st.value)), None)
+    if mvar is None:
+      raise AnalysisError("srt reader: the match of _TIMECODE_RE is not bound to a local")
+    # locals between the match and the sink that the argument reads (h = int(m.group(..)) ...)
+    call_st = calls[0]
+    while not isinstance(call_st, ast.stmt):
+      call_st = call_st._parent
+    blk = next((getattr(call_st._parent, fld) for fld in ("body", "orelse", "finalbody") if isinstance(getattr(call_st._parent, fld, None), list) and any(x is call_st for x in getattr(call_st._parent, fld))), [])
+    before = blk[:[id(x) for x in blk].index(id(call_st))]
+    # backward slice over the statements of the same block that precede the sink (the nearest definitions win)
+    needed, pre = set(names) - {mvar}, []
+    for st in reversed(before):
+      stores = {x.id for x in ast.walk(st) if isinstance(x, ast.Name) and isinstance(x.ctx, ast.Store)}
+      if isinstance(st, (ast.Assign, ast.AnnAssign)) and stores & needed:
+        pre.insert(0, st)
+        needed = (needed - stores) | ({x.id for x in ast.walk(st) if isinstance(x, ast.Name) and isinstance(x.ctx, ast.Load)} - {mvar})
+    wrong = []
+    for (line, *want) in samples:
+      mo = rx.search(line)
+      env = {mvar: mo}
+      try:
+        me = MiniEval(ix)
+        me.block(pre, env, f, 0)
+        got = me.ev(calls[0].args[0], env, f, 0)
+      except Raised:
+        got = "raises"
+      except NotConst as e:
+        raise AnalysisError(f"srt reader: the {sink} argument `{short(calls[0].args[0], 60)}` leaves the interpreted subset ({e})")
+      if got != want[idx - 1]:
+        wrong.append((line, got, want[idx - 1]))
+    pfx = "begin" if idx == 1 else "end"
     ctx.check(not wrong, "FIN-timeexpr", f"{f.qualname}|{sink} = h*3600 + m*60 + s + ms/1000 of the {pfx} time", ctx.where(f.module, calls[0]),
-              f"exact on {len(rows)} sample timestamps with decoy values in the other groups",
-              f"the cue {pfx} is not h*3600 + m*60 + s + ms/1000 of the printed {pfx} time: " + "; ".join(f"{s}: got {v}, want {w}" for s, v, w in wrong[:2]))
+              f"exact on {len(samples)} sample timing lines with decoy values in the other fields",
+              f"the cue {pfx} is not h*3600 + m*60 + s + ms/1000 of the printed {pfx} time: " + "; ".join(f"{s_}: got {v}, want {w}" for s_, v, w in wrong[:2]))
 
 
 def run(ctx):
